@@ -5,6 +5,9 @@ import FlVerif.Gen.TermGen
 import FlVerif.Op.Cascade
 import FlVerif.Op.Integral
 import FlVerif.Op.Weighted
+import FlVerif.Op.Degree
+import FlVerif.Op.Activation
+import FlVerif.Op.Consequent
 
 /-! # Code-shaped executable model of `Engine.process` for one input row (engine.py:409, rule.py, activation.py,
     term.py Activated/Aggregated, defuzzifier.py, variable.py)
@@ -181,56 +184,87 @@ structure Env (α : Type) where
 
 def Env.inputValues (e : Env α) : List (X α) := e.inputs.map (·.value)
 
-def degree (F : Fn α) (e : Env α) (conj disj : Option String) : Ante → Option (X α)
+/-- the loaded tree of an antecedent in the form of the component model of C06 (`Op.ANode`) -/
+def toANode : Ante → Op.ANode
+  | .prop v hs t => .prop v hs t
+  | .and l r => .op "and" (toANode l) (toANode r)
+  | .or l r => .op "or" (toANode l) (toANode r)
+
+/-- does every name of the tree resolve (variables, terms, hedges, operators)?  `Rule.load` guarantees it for a loaded
+    rule; the model raises otherwise -/
+def resolves (F : Fn α) (e : Env α) (conj disj : Option String) : Ante → Bool
   | .prop var hedges term =>
-    -- `variables = {v.name: v for v in engine.variables}`: inputs first, then outputs (a later one wins)
-    match (e.outputs.zip e.fuzzy).find? (fun p => p.1.name == var), e.inputs.find? (fun v => v.name == var) with
-    | some (ov, acts), _ =>
-      if !ov.enabled then some (.fin 0)
-      else match term with
-        | none => applyHedges F hedges .nan
-        | some t => do
-          let _ ← ov.terms.find? (fun tt => tt.name == t)
-          let d ← activationDegree ov.aggregation acts t
-          applyHedges F hedges d
-    | none, some iv =>
-      if !iv.enabled then some (.fin 0)
-      else match term with
-        | none => applyHedges F hedges .nan
-        | some t => do
-          let tt ← iv.terms.find? (fun tt => tt.name == t)
-          let m ← membership F e.inputValues tt iv.value
-          applyHedges F hedges m
-    | none, none => none
-  | .and l r => do
-    let c ← conj
-    let f ← Gen.normByName (α := α) c
-    pure (f (← degree F e conj disj l) (← degree F e conj disj r))
-  | .or l r => do
-    let d ← disj
-    let f ← Gen.normByName (α := α) d
-    pure (f (← degree F e conj disj l) (← degree F e conj disj r))
+    hedges.all (fun h => (Gen.hedgeByName F h).isSome) &&
+    (match (e.outputs.find? (fun v => v.name == var)), e.inputs.find? (fun v => v.name == var) with
+     | some ov, _ => (match term with
+        | none => true
+        | some t => (ov.terms.any (fun tt => tt.name == t)) &&
+                    (ov.aggregation.all (fun g => (Gen.normByName (α := α) g).isSome)))
+     | none, some iv => (match term with
+        | none => true
+        | some t => (match iv.terms.find? (fun tt => tt.name == t) with
+            | some tt => (membership F e.inputValues tt iv.value).isSome || !iv.enabled
+            | none => false))
+     | none, none => false)
+  | .and l r => (conj.all (fun c => (Gen.normByName (α := α) c).isSome)) && resolves F e conj disj l && resolves F e conj disj r
+  | .or l r => (disj.all (fun c => (Gen.normByName (α := α) c).isSome)) && resolves F e conj disj l && resolves F e conj disj r
+
+/-- what an antecedent is evaluated against, as the component model of C06 (`Lang.DegCtx`) expects it -/
+def degCtx (F : Fn α) (e : Env α) (conj disj : Option String) : Lang.DegCtx α :=
+  { enabled := fun v =>
+      match e.outputs.find? (fun o => o.name == v), e.inputs.find? (fun i => i.name == v) with
+      | some ov, _ => ov.enabled
+      | none, some iv => iv.enabled
+      | none, none => false
+    -- `variables = {v.name: v for v in engine.variables}`: an output variable of the same name wins
+    isOutput := fun v => (e.outputs.find? (fun o => o.name == v)).isSome
+    membership := fun v t =>
+      match e.inputs.find? (fun i => i.name == v) with
+      | some iv => (match iv.terms.find? (fun tt => tt.name == t) with
+          | some tt => (membership F e.inputValues tt iv.value).getD .nan
+          | none => .nan)
+      | none => .nan
+    outDegree := fun v t =>
+      match (e.outputs.zip e.fuzzy).find? (fun p => p.1.name == v) with
+      | some (ov, acts) => (activationDegree ov.aggregation acts t).getD .nan
+      | none => .nan
+    hedge := fun h x => match Gen.hedgeByName F h with | some f => f x | none => .nan
+    conj := conj.bind (fun c => Gen.normByName (α := α) c)
+    disj := disj.bind (fun c => Gen.normByName (α := α) c) }
+
+/-- `Antecedent.activation_degree`: the recursive evaluation `Op.degree` of the component model of C06 on the
+    engine's environment (`none` = it raises: a missing operator, an unresolved name) -/
+def degree (F : Fn α) (e : Env α) (conj disj : Option String) (a : Ante) : Option (X α) :=
+  if resolves F e conj disj a then (Op.degree (degCtx F e conj disj) (toANode a)).toOption else none
 
 /-! ## consequents (rule.py:542) -/
 
 def updateAt {β : Type} (l : List β) (i : Nat) (f : β → β) : List β :=
   l.zipIdx.map (fun p => if p.2 == i then f p.1 else p.1)
 
-/-- `Consequent.modify` as written: the hedged degree is threaded through the conclusions (the variable
-    `activation_degree` is reassigned inside the loop) -/
-def modify (F : Fn α) (outputs : List (OutVar α)) (impl : Option String) :
-    List Concl → X α → Fuzzy α → Option (Fuzzy α)
-  | [], _, fz => some fz
-  | c :: cs, d, fz =>
-    match outputs.zipIdx.find? (fun p => p.1.name == c.var) with
-    | none => none
-    | some (ov, i) =>
-      if ov.enabled then do
-        let d' ← applyHedges F c.hedges d
-        let t ← ov.terms.find? (fun tt => tt.name == c.term)
-        let act : Act α := { term := t, degree := X.nanToNum01 d', implication := impl }
-        modify F outputs impl cs d' (updateAt fz i (fun l => l ++ [act]))
-      else modify F outputs impl cs d fz
+/-- the conclusions of a rule in the form of the component model of C07 (`Spec.Consequent.Concl`): hedges as
+    functions, the `enabled` flag of the concluded variable; `none` when a name does not resolve -/
+def toConcls (F : Fn α) (outputs : List (OutVar α)) (cs : List Concl) : Option (List (Spec.Consequent.Concl (X α))) :=
+  cs.mapM (fun c => do
+    let ov ← outputs.find? (fun o => o.name == c.var)
+    let hs ← c.hedges.mapM (fun h => Gen.hedgeByName F h)
+    -- a conclusion on a disabled variable is skipped before its term is looked at
+    if ov.enabled && !(ov.terms.any (fun tt => tt.name == c.term)) then none
+    else pure { var := c.var, enabled := ov.enabled, hedges := hs, term := c.term })
+
+/-- append one `Activated` of the component model to the fuzzy output of its variable -/
+def appendAct (outputs : List (OutVar α)) (fz : Fuzzy α) (a : Spec.Consequent.Act (X α) (Option String)) :
+    Option (Fuzzy α) := do
+  let (ov, i) ← outputs.zipIdx.find? (fun p => p.1.name == a.var)
+  let t ← ov.terms.find? (fun tt => tt.name == a.term)
+  pure (updateAt fz i (fun l => l ++ [{ term := t, degree := a.degree, implication := a.impl }]))
+
+/-- `Consequent.modify` as written – `Op.Consequent.modifyPinned`, the component model of C07 (the hedged degree is
+    threaded through the conclusions: finding F3) – with the resulting activations appended to the fuzzy outputs -/
+def modify (F : Fn α) (outputs : List (OutVar α)) (impl : Option String) (cs : List Concl) (d : X α)
+    (fz : Fuzzy α) : Option (Fuzzy α) := do
+  let concls ← toConcls F outputs cs
+  (Op.Consequent.modifyPinned X.nanToNum01 impl d concls).foldlM (appendAct outputs) fz
 
 /-- `Rule.trigger` -/
 def trigger (F : Fn α) (outputs : List (OutVar α)) (impl : Option String) (r : RuleD α) (d : X α)
@@ -257,13 +291,6 @@ def compare (cmp : String) (a t : X α) : Option Bool :=
   | "<" => some (X.lt a t) | "<=" => some (X.le a t) | "==" => some (X.eq a t) | "!=" => some (X.ne a t)
   | ">=" => some (X.le t a) | ">" => some (X.lt t a) | _ => none
 
-/-- insertion into the heap order `(key, index)` ascending – `heapq`'s contract -/
-def heapInsert (k : X α) (i : Nat) : List (X α × Nat) → List (X α × Nat)
-  | [] => [(k, i)]
-  | (k', i') :: rest =>
-    if X.lt k k' || (X.eq k k' && i < i') then (k, i) :: (k', i') :: rest
-    else (k', i') :: heapInsert k i rest
-
 /-- one pass of a counting loop (General / First / Last / Threshold): `eligible d count` decides whether to trigger -/
 def loopPass (F : Fn α) (ins : List (InVar α)) (outs : List (OutVar α)) (b : Block α)
     (eligible : X α → Nat → Option Bool) :
@@ -280,49 +307,60 @@ def loopPass (F : Fn α) (ins : List (InVar α)) (outs : List (OutVar α)) (b : 
       else loopPass F ins outs b eligible rs count (fz, setObs obs i { degree := d, triggered := false })
     else loopPass F ins outs b eligible rs count (fz, obs)
 
-/-- first pass of Highest / Lowest / Proportional: degrees of all loaded rules, candidates with positive degree -/
-def degreesPass (F : Fn α) (ins : List (InVar α)) (outs : List (OutVar α)) (b : Block α) (fz : Fuzzy α) :
-    List (RuleD α × Nat) → List (RuleObs α) → List (Nat × X α) → Option (List (RuleObs α) × List (Nat × X α))
-  | [], obs, cands => some (obs, cands)
-  | (r, i) :: rs, obs, cands =>
-    let obs := setObs obs i { degree := .fin 0, triggered := false }
+def toMethod : Activation α → Option (Spec.Activation.Method α)
+  | .general => some .general
+  | .first n t => some (.first n t)
+  | .last n t => some (.last n t)
+  | .highest n => some (.highest n)
+  | .lowest n => some (.lowest n)
+  | .proportional => some .proportional
+  | .threshold c t => (Spec.Activation.Comparator.ofSymbol c).map (fun c => .threshold c t)
+  | .missing => none
+
+def usesOutput (outs : List (OutVar α)) : Ante → Bool
+  | .prop v _ _ => outs.any (fun o => o.name == v)
+  | .and l r => usesOutput outs l || usesOutput outs r
+  | .or l r => usesOutput outs l || usesOutput outs r
+
+/-- no antecedent of the block reads an output variable: the degrees do not depend on what the block itself adds -/
+def feedbackFree (outs : List (OutVar α)) (b : Block α) : Bool := b.rules.all (fun r => !usesOutput outs r.ante)
+
+/-- the activation through the component model of C08 (`Op.Activation.activate`): the degrees of all loaded rules
+    are evaluated against the fuzzy outputs as they are when the block starts, the method selects, and the selected
+    rules trigger in the order the component model reports (`fires`) -/
+def activateViaComponent (F : Fn α) (ins : List (InVar α)) (outs : List (OutVar α)) (b : Block α) (fz : Fuzzy α) :
+    Option (St α) := do
+  let m ← toMethod b.activation
+  let rs ← b.rules.mapM (fun r =>
     if r.loaded then do
       let d ← activateWith F ins outs b r fz
-      let obs := setObs obs i { degree := d, triggered := false }
-      degreesPass F ins outs b fz rs obs (if X.lt (.fin 0) d then cands ++ [(i, d)] else cands)
-    else degreesPass F ins outs b fz rs obs cands
+      pure ({ loaded := true, enabled := r.enabled, vector := false, degree := d, actDegree := .fin 0,
+              triggered := false } : Spec.Activation.Rule α)
+    else pure { loaded := false, enabled := r.enabled, vector := false, degree := .fin 0, actDegree := .fin 0,
+                triggered := false })
+  let out ← (Op.Activation.activate m rs).toOption
+  let fz' ← out.fires.foldlM (fun fz (p : Nat × X α) => do
+    let r ← b.rules[p.1]?
+    let (fz', _) ← trigger F outs b.implication r p.2 fz
+    pure fz') fz
+  pure (fz', out.rules.map (fun r => { degree := r.actDegree, triggered := r.triggered }))
 
-def triggerList (F : Fn α) (outs : List (OutVar α)) (b : Block α) :
-    List (Nat × X α) → St α → Option (St α)
-  | [], st => some st
-  | (i, d) :: rest, (fz, obs) => do
-    let r ← b.rules[i]?
-    let (fz', trig) ← trigger F outs b.implication r d fz
-    triggerList F outs b rest (fz', setObs obs i { degree := d, triggered := trig })
-
-/-- `RuleBlock.activate` -/
+/-- `RuleBlock.activate`.  Highest / Lowest / Proportional evaluate every degree before any rule triggers, and so
+    does every method on a block whose antecedents read no output variable: these go through the component model of
+    C08.  General / First / Last / Threshold on a block with feedback interleave evaluation and triggering: the
+    loops below follow the code. -/
 def activateBlock (F : Fn α) (ins : List (InVar α)) (outs : List (OutVar α)) (b : Block α) (fz : Fuzzy α) :
     Option (St α) :=
   let idx := b.rules.zipIdx
   let obs0 : List (RuleObs α) := b.rules.map (fun _ => { degree := .fin 0, triggered := false })
-  match b.activation with
+  if feedbackFree outs b then activateViaComponent F ins outs b fz
+  else match b.activation with
   | .missing => none
   | .general => loopPass F ins outs b (fun _ _ => some true) idx 0 (fz, obs0)
   | .first n t => loopPass F ins outs b (fun d c => some (decide (c < n) && X.lt (.fin 0) d && X.le t d)) idx 0 (fz, obs0)
   | .last n t => loopPass F ins outs b (fun d c => some (decide (c < n) && X.lt (.fin 0) d && X.le t d)) idx.reverse 0 (fz, obs0)
   | .threshold cmp t => loopPass F ins outs b (fun d _ => compare cmp d t) idx 0 (fz, obs0)
-  | .highest n => do
-    let (obs, cands) ← degreesPass F ins outs b fz idx obs0 []
-    let heap := cands.foldl (fun h (i, d) => heapInsert (X.neg d) i h) []
-    triggerList F outs b ((heap.take n).map (fun (k, i) => (i, X.neg k))) (fz, obs)
-  | .lowest n => do
-    let (obs, cands) ← degreesPass F ins outs b fz idx obs0 []
-    let heap := cands.foldl (fun h (i, d) => heapInsert d i h) []
-    triggerList F outs b ((heap.take n).map (fun (k, i) => (i, k))) (fz, obs)
-  | .proportional => do
-    let (obs, cands) ← degreesPass F ins outs b fz idx obs0 []
-    let total := cands.foldl (fun s (_, d) => X.add s d) (.fin 0)
-    triggerList F outs b (cands.map (fun (i, d) => (i, X.div d total))) (fz, obs)
+  | .highest _ | .lowest _ | .proportional => activateViaComponent F ins outs b fz
 
 /-! ## aggregated membership and defuzzifiers (term.py:369/464, defuzzifier.py) -/
 
